@@ -29,6 +29,8 @@ var c07templates = [][]string{
 	/* 13 */ {"local \x01 = 1\ng = \x01\nlocal \x02 = 2\nlocal \x03 = 3\nh = \x03\n"},
 	/* 14 */ {"local \x01 = 1\ng = \x01\nlocal \x02 = 2\n\x02 = 3\n"},
 	/* 15 */ {"do\n local \x01 = 1\n g = \x01\n local \x02 = 2\nend\nlocal \x03 <close> = 1\nlocal \x04 = 2\n"},
+	// two modules started from the same template: the same findings at the same places in both files
+	/* 16 */ {"local \x01 = 1\nlocal \x02 = 2\ng = \x03\nh = \x02\n", "local \x01 = 1\nlocal \x02 = 2\ng = \x03\nh = \x02\n"},
 }
 
 type c07diag struct {
